@@ -189,7 +189,7 @@ func TestVerifC14FindPathConf(t *testing.T) {
 
 	rapid.Check(t, func(t *rapid.T) {
 		keys := cgGenPathKeys(maxKeys).Draw(t, "keys")
-		viaFile := rapid.IntRange(0, 7).Draw(t, "viaFile") == 0
+		viaFile := rapid.IntRange(0, 15).Draw(t, "viaFile") == 0
 		conf, err := cgBuildPathConfs(keys, viaFile)
 		if err != nil {
 			t.Fatalf("generator produced a key set that Validate rejects: %q: %v", keys, err)
@@ -246,8 +246,10 @@ func TestVerifC14FindPathConf(t *testing.T) {
 				case exp.Matches >= 2:
 					nontrivial = true
 					classes = append(classes, "regex-several-match")
-					if exp.Key == "all" || exp.Key == "all_others" {
-						classes = append(classes, "regex-all-wins")
+					for _, k := range keys {
+						if k == "all" || k == "all_others" {
+							classes = append(classes, "regex-several-match-incl-all")
+						}
 					}
 				default:
 					classes = append(classes, "regex-one-match")
